@@ -181,7 +181,11 @@ class Tr:
             inner = t[1]
             if is_num(inner):
                 return f"(match {e} with | some v => decide (v ≠ 0) | none => false)"
-            return f"({e}).isSome"
+            if inner == BOOL:
+                return f"(match {e} with | some v => v | none => false)"
+            if isinstance(inner, tuple) and inner[0] in ("tuple", "slice", "slice3"):
+                return f"({e}).isSome"          # a non-empty tuple / a slice object is truthy
+            raise TranslationError(f"truthiness of {t!r}")
         raise TranslationError(f"truthiness of {t!r}")
 
     def const(self, node, env):
